@@ -255,6 +255,14 @@ def sanitizer_site(raw):
             if not f.startswith(('__interceptor', '__asan', 'memcpy', 'memset', 'memmove', 'malloc', 'calloc', 'realloc', 'free', 'strlen', 'strcpy')):
                 fn = f; break
         return kind, fn or '?'
+    m = re.search(r'SUMMARY: AddressSanitizer: (\S+) \S+ in (\S+)', raw)      # head of the report cut off
+    if m:
+        fn = m.group(2)
+        if fn.startswith(('__interceptor', '__asan', 'mem')):
+            for f in re.findall(r'#\d+ 0x[0-9a-f]+ in (\S+)', raw):
+                if not f.startswith(('__interceptor', '__asan', 'memcpy', 'memset', 'memmove', 'malloc', 'calloc', 'realloc', 'free', 'strlen', 'strcpy')):
+                    fn = f; break
+        return m.group(1), fn
     if 'runtime error:' in raw:
         m = re.search(r'runtime error: ([^\n]*)', raw)
         return 'ub', m.group(1)[:40]
